@@ -254,6 +254,8 @@ def free_leaves(case):
 
 # --------------------------------------------------------------------------- history replay (E2 transition)
 EVENTS = [["set", 0], ["set", 1], ["set", 2], ["update"], ["copy"], ["get", False], ["get", True], ["hist"], ["set_bad"]]
+# "edit": a value is assigned directly on a Parameter object; the expressions catch up at the next export / update
+EVENTS_WITH_EDIT = EVENTS + [["edit"]]
 
 
 def replay_history(case, history):
@@ -271,6 +273,7 @@ def replay_history(case, history):
     recorded.append(params)  # the state every "hist" event restores
     leaf0 = dict(leaf)
     poisoned = False  # an update failed: the intermediate state is unspecified until the next complete update
+    stale = False  # a value was edited directly: expression values are due at the next re-evaluating operation
 
     def ref_ok(lf):
         try:
@@ -281,7 +284,7 @@ def replay_history(case, history):
 
     def updating(op, new_leaf, what):
         """run an updating operation; returns the leaf values that now apply"""
-        nonlocal poisoned
+        nonlocal poisoned, stale
         expect_ok = ref_ok(new_leaf)
         try:
             op()
@@ -291,6 +294,7 @@ def replay_history(case, history):
         if raised == expect_ok:
             vs.append(V("update-failure-differs-from-reference", what=what, raised=raised, reference_evaluates=expect_ok))
         poisoned = raised or not expect_ok  # either way no judgeable state until the next complete update
+        stale = False
         return new_leaf
 
     for step, ev in enumerate(history):
@@ -307,6 +311,19 @@ def replay_history(case, history):
             leaf = updating(lambda: params.set_from_history(recorded, 0), dict(leaf0), ev)
         elif poisoned:
             continue  # copy / export of a set whose last update failed is not judged
+        elif ev[0] == "edit":
+            i = [k for k in free if k != nn][:1]
+            if not i:
+                continue
+            new_leaf = dict(leaf)
+            new_leaf[i[0]] = 3.25 if leaf[i[0]] != 3.25 else 4.5
+            if not ref_ok(new_leaf):
+                continue
+            params.get(labels[i[0]]).value = new_leaf[i[0]]
+            leaf, stale = new_leaf, True
+            continue
+        elif stale and ev[0] == "copy":
+            continue
         elif ev[0] == "copy":
             orig = params
             before = state_of(orig)
@@ -334,6 +351,7 @@ def replay_history(case, history):
             params = cp
         elif ev[0] == "get":
             lab, val, lo, hi = params.get_label_value_and_bounds_arrays(exclude_non_vary=ev[1])
+            stale = False  # exporting re-evaluates (whichever selection is exported)
             if last:
                 want = reference_values(graph, n, case["form"], leaf)
                 exp_labels = [labels[i] for i in range(n) if not ev[1] or not graph[i]]
@@ -348,14 +366,14 @@ def replay_history(case, history):
                         if not same(float(v), float(w)):
                             vs.append(V("exported-value-differs-from-reference", label=L, got=float(v), want=w))
                             break
-        if last and not poisoned:
+        if last and not poisoned and not stale:
             vs += invariant(params, case, leaf, f"after {ev}")
     # The digest must cover hidden state too, otherwise histories are merged that have different futures:
     # (a) all parameter fields, (b) whether the object was produced by copy() (a copy may share state with its
     # source that no field shows), (c) which object the expression interpreter is bound to.
     ev = getattr(params, "_evaluator", None)
     bound = getattr(ev, "symtable", {}).get("parameters") is params if ev is not None else None
-    dg = core.digest([state_of(params), any(e[0] == "copy" for e in history), bound, poisoned])
+    dg = core.digest([state_of(params), any(e[0] == "copy" for e in history), bound, poisoned, stale])
     return dg, vs, {"outcome": [float(params.get(l).value) for l in labels]}
 
 
@@ -367,7 +385,7 @@ def case_graph_histories(case):
         reference_values({i: tuple(case["graph"][i]) for i in range(n0)}, n0, case["form"], {i: leaf_initial(i) for i in free_leaves(case)})
     except IndexError:
         return core.ood("initial-values-outside-the-domain-of-an-expression")
-    r = bfs(lambda h, info: EVENTS, lambda h: replay_history(case, h), depth)
+    r = bfs(lambda h, info: EVENTS_WITH_EDIT if case.get("edit") else EVENTS, lambda h: replay_history(case, h), depth)
     vs = []
     for v in r["violations"]:
         h = v.pop("history")
@@ -455,12 +473,27 @@ def case_fit(case):
 
     scheme = Scheme(model=B.make_model(md), parameters=params, data=data, maximum_number_function_evaluations=case["nfev"],
                     optimization_method=case["method"], add_svd=False)  # fmt: skip
-    with warnings.catch_warnings():
-        warnings.simplefilter("ignore")
-        try:
-            res = optimize(scheme, verbose=False, raise_exception=True)
-        except (ValueError, FloatingPointError, np.linalg.LinAlgError) as e:
-            return core.ood("fit-raised-" + type(e).__name__)
+    # monitor: at the moment the model is evaluated (OptimizationGroup.calculate) the parameter set it is evaluated with
+    # is mutually consistent
+    from glotaran.optimization import optimization_group as og
+
+    seen_at_evaluation = []
+    orig_calculate = og.OptimizationGroup.calculate
+
+    def monitored(self, parameters):
+        seen_at_evaluation.append({p.label: float(p.value) for p in parameters.all()})
+        return orig_calculate(self, parameters)
+
+    og.OptimizationGroup.calculate = monitored
+    try:
+        with warnings.catch_warnings():
+            warnings.simplefilter("ignore")
+            try:
+                res = optimize(scheme, verbose=False, raise_exception=True)
+            except (ValueError, FloatingPointError, np.linalg.LinAlgError) as e:
+                return core.ood("fit-raised-" + type(e).__name__)
+    finally:
+        og.OptimizationGroup.calculate = orig_calculate
 
     def want(vals):
         env = {"a": vals["r.a"], "b": vals["r.b"]}
@@ -480,6 +513,13 @@ def case_fit(case):
         if got[lab] != w[lab]:
             vs.append(V("expression-parameter-value-differs-from-reference/result-optimized-parameters", label=lab, got=got[lab],
                         want=w[lab], relative=abs(got[lab] - w[lab]) / abs(w[lab])))  # fmt: skip
+    for k, vals in enumerate(seen_at_evaluation):
+        w = want(vals)
+        bad = [lab for lab in exprs if vals[lab] != w[lab]]
+        if bad:
+            vs.append(V("expression-parameter-value-differs-from-reference/at-model-evaluation", label=bad[0], evaluation=k + 1,
+                        evaluations=len(seen_at_evaluation), got=vals[bad[0]], want=w[bad[0]]))  # fmt: skip
+            break
     labels = list(res.parameter_history.parameter_labels)[1:]
     for r, row in enumerate(np.asarray(res.parameter_history.parameters, dtype=float)):
         vals = dict(zip(labels, [float(x) for x in row[1:]]))
@@ -581,7 +621,8 @@ def run(run: core.Run):
                     for variant in ("plain", "nonneg"):
                         if variant == "nonneg" and (form != "sum" or style != "flat"):
                             continue
-                        cases.append({"n": n, "graph": gk, "form": form, "style": style, "variant": variant, "depth": depth})
+                        cases.append({"n": n, "graph": gk, "form": form, "style": style, "variant": variant, "depth": depth,
+                                      "edit": n <= 3 and style == "flat"})
     run.map("graph_histories", cases)
     # (2) construction routes on all graphs n <= 4 (3 in quick for the slow file routes)
     cases = []
